@@ -19,7 +19,7 @@ GROUP = dict(
         _c.PURL_SHAPE,
         _c.contract_only('lib_lower', 'U-lower.lowercase_in_place'),
         dict(id='U-pypi.fix_pypi_name', file='purl/src/package_type.rs', fn='fix_pypi_name',
-             properties=['C08', 'C10'], ret=None,
+             properties=['C08', 'C10', 'C09', 'C01', 'C02'], ret=None,
              contract='    ensures final(name)@ == pypi_norm(old(name)@)',
              hoist=[('R6', r'const (\w+): &\[char\] = &\[([^\]]*)\];',
                      r"exec const \1: &'static [char] ensures \1@ =~= seq![\2] { &[\2] }")],
